@@ -40,6 +40,7 @@ type dir struct {
 	trans    []byte
 	faults   []*Fault
 	faultHit int
+	starts   []int64 // stream offset at which each Write call began (capped)
 }
 
 // Link is a pair of endpoints.
@@ -110,6 +111,14 @@ func (l *Link) FaultHits(d int) int {
 	l.d[d].mu.Lock()
 	defer l.d[d].mu.Unlock()
 	return l.d[d].faultHit
+}
+
+// WriteStarts returns the stream offsets at which the writer's Write calls on
+// direction d began (one per flush of a p2p.Conn): message framing sits there.
+func (l *Link) WriteStarts(d int) []int64 {
+	l.d[d].mu.Lock()
+	defer l.d[d].mu.Unlock()
+	return append([]int64(nil), l.d[d].starts...)
 }
 
 // Transcript returns everything written on direction d (before faults).
@@ -241,6 +250,9 @@ func (e *End) Write(p []byte) (int, error) {
 				}
 			}
 		}
+	}
+	if len(d.starts) < 4096 && len(p) > 0 {
+		d.starts = append(d.starts, d.written)
 	}
 	d.written += int64(len(p))
 	e.l.activity.Add(1)
